@@ -43,19 +43,29 @@ def excluded (wl bl : Option (List String)) (k : String) : Bool :=
   (match wl with | some w => !(w.contains k) | none => false) ||
   (match bl with | some b => b.contains k | none => false)
 
+/-- one round of the `_serialize` loop -/
+def serStep {σ δ : Type} (get : String → σ → Option δ) (wl bl : Option (List String)) (o : σ)
+    (data : List (String × δ)) (k : String) : List (String × δ) :=
+  if excluded wl bl k then data
+  else match get k o with
+    | some v => AL.set data k v
+    | none => data
+
 /-- `_serialize(getters, whitelist, blacklist)`: `data[key] = getter(key)` for every admitted key, in order -/
 def serializeWith {σ δ : Type} (get : String → σ → Option δ) (wl bl : Option (List String)) (o : σ)
     (getters : List String) : List (String × δ) :=
-  getters.foldl (fun data k =>
-    if excluded wl bl k then data
-    else match get k o with
-      | some v => AL.set data k v
-      | none => data) []
+  getters.foldl (serStep get wl bl o) []
+
+/-- one round of the setter loop -/
+def setStep {σ δ : Type} (set : String → δ → σ → σ) (data : List (String × δ)) (o : σ) (k : String) : σ :=
+  match AL.get? data k with
+  | some v => set k v o
+  | none => o
 
 /-- `for key, setter in setters: if key not in data: continue; setter(key, data[key])` -/
 def applySetters {σ δ : Type} (set : String → δ → σ → σ) (data : List (String × δ))
     (setters : List String) (o : σ) : σ :=
-  setters.foldl (fun o k => match AL.get? data k with | some v => set k v o | none => o) o
+  setters.foldl (setStep set data) o
 
 /-! ### dict primitives -/
 
@@ -353,37 +363,61 @@ def copyImage (temp : Dict) (items : Dict) : Dict :=
   ["fileName", "xScale", "xyScale", "yxScale", "yScale", "xOffset", "yOffset", "color"].foldl
     (fun it k => setAttr it k (dictGet temp k)) items
 
+/-- `_set_lib`: the lib object is created on demand (parent = the glyph, observed), cleared and updated -/
+def Glyph.setLib (d : Dict) (g : Glyph) : Glyph :=
+  { g with lib := { items := dictUpdate [] d, parent := true, observed := g.disp } }
+
+/-- `_set_tempLib`: same, but nobody observes a temp lib -/
+def Glyph.setTempLib (d : Dict) (g : Glyph) : Glyph :=
+  { g with tempLib := { items := dictUpdate [] d, parent := true, observed := false } }
+
+/-- `init_set(list_init, self.instantiateContour, set_each(self.appendContour, True))` -/
+def Glyph.setContours (l : List (List (String × PenRec))) (g : Glyph) : Glyph :=
+  let built := buildContours l g.reg
+  let g := { g with reg := built.2 }
+  match built.1 with
+  | [] => g
+  | cs =>
+    -- appendContour: `assert contour not in self` forces the full load of shallow contours first
+    let g := g.fullyLoad
+    { g with contours := g.contours ++ cs.map (fun c => { c with observed := g.disp }) }
+
+def Glyph.setComponents (l : List Dict) (g : Glyph) : Glyph :=
+  let built := buildComponents l g.reg
+  { g with reg := built.2, components := g.components ++ built.1.map (fun c => { c with observed := g.disp }) }
+
+/-- `self.guidelines = [instantiateGuideline(d) …]` (the glyph was cleared before: nothing to remove) -/
+def Glyph.setGuidelines (l : List Dict) (g : Glyph) : Glyph :=
+  let built := buildDicts Guideline.ofDict l g.reg
+  { g with reg := built.2, guidelines := built.1.map (fun c => { c with observed := g.disp }) }
+
+def Glyph.setAnchors (l : List Dict) (g : Glyph) : Glyph :=
+  let built := buildDicts Anchor.ofDict l g.reg
+  { g with reg := built.2, anchors := built.1.map (fun c => { c with observed := g.disp }) }
+
+/-- `self.image = self.instantiateImage(d)` -/
+def Glyph.setImage (d : Dict) (g : Glyph) : Glyph :=
+  let temp := dictUpdate imageDefaults d
+  let cur := g.image.getD (freshImage g.disp)
+  { g with image := some { cur with items := copyImage temp cur.items } }
+
+/-- plain `setattr(self, "_shallowLoadedContours", l)` -/
+def Glyph.setShallow (l : List PenRec) (g : Glyph) : Glyph := { g with shallow := some l }
+
 def Glyph.setField : String → GVal → Glyph → Glyph
   | "name", .val v, g => { g with name := v }
   | "unicodes", .val v, g => { g with unicodes := v }
   | "width", .val v, g => { g with width := v }
   | "height", .val v, g => { g with height := v }
   | "note", .val v, g => { g with note := v }
-  | "lib", .dict d, g => { g with lib := { items := dictUpdate [] d, parent := true, observed := g.disp } }
-  | "tempLib", .dict d, g => { g with tempLib := { items := dictUpdate [] d, parent := true, observed := false } }
-  | "_shallowLoadedContours", .shallow l, g => { g with shallow := some l }
-  | "_contours", .contours l, g =>
-    let built := buildContours l g.reg
-    let g := { g with reg := built.2 }
-    match built.1 with
-    | [] => g
-    | cs =>
-      -- appendContour: `assert contour not in self` forces the full load of shallow contours first
-      let g := g.fullyLoad
-      { g with contours := g.contours ++ cs.map (fun c => { c with observed := g.disp }) }
-  | "components", .dicts l, g =>
-    let built := buildComponents l g.reg
-    { g with reg := built.2, components := g.components ++ built.1.map (fun c => { c with observed := g.disp }) }
-  | "guidelines", .dicts l, g =>
-    let built := buildDicts Guideline.ofDict l g.reg
-    { g with reg := built.2, guidelines := built.1.map (fun c => { c with observed := g.disp }) }
-  | "anchors", .dicts l, g =>
-    let built := buildDicts Anchor.ofDict l g.reg
-    { g with reg := built.2, anchors := built.1.map (fun c => { c with observed := g.disp }) }
-  | "image", .dict d, g =>
-    let temp := dictUpdate imageDefaults d
-    let cur := g.image.getD (freshImage g.disp)
-    { g with image := some { cur with items := copyImage temp cur.items } }
+  | "lib", .dict d, g => g.setLib d
+  | "tempLib", .dict d, g => g.setTempLib d
+  | "_shallowLoadedContours", .shallow l, g => g.setShallow l
+  | "_contours", .contours l, g => g.setContours l
+  | "components", .dicts l, g => g.setComponents l
+  | "guidelines", .dicts l, g => g.setGuidelines l
+  | "anchors", .dicts l, g => g.setAnchors l
+  | "image", .dict d, g => g.setImage d
   | _, _, g => g
 
 def Glyph.imageObj (g : Glyph) : DictObj := g.image.getD (freshImage g.disp)
